@@ -34,14 +34,17 @@ Record rparams := {
   p_cleanup_clears : bool; (* _cleanup contains self._local_objects.clear() *)
   p_send_checks_closed : bool;  (* _async_request refuses (EOFError) before boxing once the channel is closed *)
   p_cleanup_guarded : bool;     (* in _cleanup the clear is reached even when the service's on_disconnect raises *)
-  p_close_finally : bool        (* in close() the _cleanup call sits in the `finally` of the try around hook and CLOSE *)
+  p_close_finally : bool;       (* in close() the _cleanup call sits in the `finally` of the try around hook and CLOSE *)
+  p_failed_send_releases : bool; (* what _box registered is given back when boxing / encoding the message fails *)
+  p_reply_checks_closed : bool  (* _dispatch_request refuses (EOFError) before boxing the result once the channel is closed *)
 }.
 (* the parameters the theorems are proved for; the three booleans are the facts found in the tree *)
-Definition stdp (sc cg cf : bool) : rparams :=
+Definition stdp (sc cg cf fr rc : bool) : rparams :=
   {| p_add_init := 0; p_add_inc := 1; p_dec_cmp := CLt; p_dec_default := 1; p_proxy_init := 1;
      p_unbox_inc := 1; p_del_src := DRefcount; p_cleanup_clears := true;
-     p_send_checks_closed := sc; p_cleanup_guarded := cg; p_close_finally := cf |}.
-Definition std_params : rparams := stdp true true true.
+     p_send_checks_closed := sc; p_cleanup_guarded := cg; p_close_finally := cf;
+     p_failed_send_releases := fr; p_reply_checks_closed := rc |}.
+Definition std_params : rparams := stdp true true true true true.
 
 Definition cmp_holds (c : rcmp) (a b : Z) : bool :=
   match c with
@@ -265,17 +268,47 @@ Inductive op :=
 | Morph (k : nat)                 (* the owner application changes the lent object's key (class reassigned,
                                      module dropped from sys.modules) and lets go of it: not a valid_op *)
 | RawDel (k : nat) (n : Z)        (* misbehaving peer: release notice it is not entitled to send *)
-| RawLocal (k : nat).             (* misbehaving peer: refers to an id it does not hold *)
+| RawLocal (k : nat)              (* misbehaving peer: refers to an id it does not hold *)
+(* the remaining operations are not [valid_op]s: each states, on a drained connection, what the code does in a
+   situation the theorems exclude *)
+| SendFail (ks : list nat)        (* lend ks in one call together with something that cannot be boxed or encoded:
+                                     the call raises at the owner, nothing is sent *)
+| ReplyFail (c r : nat)           (* through proxy c, passing proxy r back: the callee returns object r together
+                                     with something that cannot be boxed or encoded *)
+| SendBadSibling (ks : list nat)  (* lend ks behind a sibling the peer fails to unbox (its INSPECT raises at the
+                                     owner): the peer consumes the message without producing a proxy *)
+| CloseInCallee (c r : nat).      (* through proxy c, passing proxy r back: the callee closes the owner's connection
+                                     and then returns object r by reference *)
 
 (* what a closed connection still does: async_request boxes before it (fails to) send *)
 Definition step_closed (P : rparams) (o : op) (s : st) : st :=
   match o with
-  | Send ks | SendSync ks | SendRaise ks =>
+  | Send ks | SendSync ks | SendRaise ks | SendFail ks | SendBadSibling ks =>
       if p_send_checks_closed P then s else set_slot s (box_all P (slot s) (filter (appref s) ks))
   | Forget k => set_appref s (upd (appref s) k false)
   | Morph k => set_appref s (upd (appref s) k false)
   | _ => s
   end.
+
+(* the situations outside the theorems, each on a drained connection (both streams consumed twice over) *)
+Definition adds_unless_released (P : rparams) (ks : list nat) (s : st) : st :=
+  if p_failed_send_releases P then s else set_slot s (box_all P (slot s) ks).
+Definition reply_fail (P : rparams) (c r : nat) (s0 : st) : st :=
+  let s := sync P (sync P s0) in
+  if all_held s [c; r] && all_present (slot s) [c; r]
+  then reply (adds_unless_released P [r] s) MExc       (* the requester gets the encoding failure as an exception *)
+  else s.
+(* the owner answers the peer's INSPECT with an exception (a new traceback, referencing no lent object); the peer's
+   request handler fails while unboxing: B._last_traceback = tb, exception reply, nothing unboxed *)
+Definition bad_sibling (P : rparams) (ks : list nat) (s0 : st) : st :=
+  let s := sync P (sync P s0) in
+  repin P [] (set_tbo (set_slot s (box_all P (slot s) (filter (appref s) ks))) []).
+Definition close_in_callee (P : rparams) (c r : nat) (s0 : st) : st :=
+  let s := sync P (sync P s0) in
+  if all_held s [c; r] && all_present (slot s) [c; r]
+  then let s1 := cleanup P true false s in
+       if p_reply_checks_closed P then s1 else set_slot s1 (coll_add P (slot s1) r)
+  else s.
 
 Definition step (P : rparams) (o : op) (s : st) : st :=
   if closed s then step_closed P o s else
@@ -294,6 +327,10 @@ Definition step (P : rparams) (o : op) (s : st) : st :=
   | Morph k => set_morphed (set_appref s (upd (appref s) k false)) (upd (morphed s) k true)
   | RawDel k n => set_qba s (qba s ++ [MDel k n])
   | RawLocal k => set_qba s (qba s ++ [MUse k [] UVal])
+  | SendFail ks => adds_unless_released P (filter (appref s) ks) s
+  | ReplyFail c r => reply_fail P c r s
+  | SendBadSibling ks => bad_sibling P ks s
+  | CloseInCallee c r => close_in_callee P c r s
   end.
 
 Definition run_from (P : rparams) (s : st) (ops : list op) : st := fold_left (fun s o => step P o s) ops s.
@@ -301,11 +338,15 @@ Definition run (P : rparams) (ops : list op) : st := run_from P init ops.
 
 (* operations of a well-behaved peer on objects whose key is stable *)
 Definition valid_op (o : op) : Prop :=
-  match o with RawDel _ _ | RawLocal _ | Morph _ => False | _ => True end.
+  match o with
+  | RawDel _ _ | RawLocal _ | Morph _ | SendFail _ | ReplyFail _ _ | SendBadSibling _ | CloseInCallee _ _ => False
+  | _ => True
+  end.
 (* ... in which, moreover, no remote call raises (so that no traceback is kept) *)
 Definition calm_op (o : op) : Prop :=
   match o with
   | RawDel _ _ | RawLocal _ | Morph _ | SendRaise _ | Use _ _ UBoom => False
+  | SendFail _ | ReplyFail _ _ | SendBadSibling _ | CloseInCallee _ _ => False
   | _ => True
   end.
 
@@ -321,10 +362,11 @@ Definition delsrc_of_sx (x : sx) : delsrc :=
   match x with SL [SI 0] => DRefcount | SL [SI 1] => DDefault | SL [SI 2; SI z] => DConst z | _ => DRefcount end.
 Definition params_of_sx (x : sx) : rparams :=
   match x with
-  | SL [a; b; c; d; e; f; g; h; i; j; k] =>
+  | SL [a; b; c; d; e; f; g; h; i; j; k; l; m] =>
       {| p_add_init := sx_z a; p_add_inc := sx_z b; p_dec_cmp := cmp_of_sx c; p_dec_default := sx_z d;
          p_proxy_init := sx_z e; p_unbox_inc := sx_z f; p_del_src := delsrc_of_sx g; p_cleanup_clears := sx_bool h;
-         p_send_checks_closed := sx_bool i; p_cleanup_guarded := sx_bool j; p_close_finally := sx_bool k |}
+         p_send_checks_closed := sx_bool i; p_cleanup_guarded := sx_bool j; p_close_finally := sx_bool k;
+         p_failed_send_releases := sx_bool l; p_reply_checks_closed := sx_bool m |}
   | _ => std_params
   end.
 Definition nats_of_sx (x : sx) : list nat := map sx_nat (sx_l x).
@@ -346,6 +388,10 @@ Definition op_of_sx (x : sx) : op :=
   | SL [SI 11; k] => RawLocal (sx_nat k)
   | SL [SI 12; ks] => SendRaise (nats_of_sx ks)
   | SL [SI 13; k] => Morph (sx_nat k)
+  | SL [SI 14; ks] => SendFail (nats_of_sx ks)
+  | SL [SI 15; c; r] => ReplyFail (sx_nat c) (sx_nat r)
+  | SL [SI 16; ks] => SendBadSibling (nats_of_sx ks)
+  | SL [SI 17; c; r] => CloseInCallee (sx_nat c) (sx_nat r)
   | _ => Sync
   end.
 
